@@ -75,6 +75,7 @@ func checkAnswer(c *ev.Case, what string, reqH refcodec.Header, ansWire []byte, 
 
 func TestC16(t *testing.T) {
 	rec := ev.Open(t, "C16")
+	refcodecSelfCheck(t)
 	defer rec.Close()
 	ctxs := contexts(t)
 	// Message.Answer over the header space
